@@ -1066,6 +1066,13 @@ func (rw *responseWriter) WriteHeader(statusCode int) {
 		}
 		rw.sawInterim = false
 	}
+	// A backend response without a Content-Type goes out without one: net/http would
+	// otherwise make one up from the first bytes of the body (a nil entry tells it not to)
+	if h := rw.Header(); h != nil {
+		if _, labelled := h["Content-Type"]; !labelled {
+			h["Content-Type"] = nil
+		}
+	}
 	rw.statusCode = statusCode
 	rw.ResponseWriter.WriteHeader(statusCode)
 }
